@@ -1,11 +1,11 @@
 SPECIFICATION Spec
 CONSTANTS
   Threads = {1,2,3}
-  NBlk = 3
-  Cap = 2
+  NBlk = 2
+  Cap = 1
   MaxOps = 8
-  NRes = 0
+  NRes = 3
   SharedScratch = FALSE
   DrainOnExit = TRUE
-INVARIANTS RaceFree HeapSoundT NoBlockInDeadCache
+INVARIANTS RaceFree HeapSoundT NoBlockInDeadCache ScratchPerThread
 CHECK_DEADLOCK FALSE
